@@ -54,6 +54,21 @@ asn1f_pull_components_of(arg_t *arg) {
 		}
 
 		/*
+		 * The referenced type may itself contain COMPONENTS OF which
+		 * is not expanded yet (it depends on the order of modules).
+		 * Expand it first, in the context of its own module.
+		 */
+		if(terminal != expr) {
+			asn1p_expr_t *saved_expr = arg->expr;
+			int ret;
+			arg->expr = terminal;
+			ret = WITH_MODULE(terminal->module,
+				asn1f_pull_components_of(arg));
+			arg->expr = saved_expr;
+			if(ret) r_value = -1;
+		}
+
+		/*
 		 * Clone the final structure.
 		 */
 
